@@ -76,6 +76,26 @@ def corr(ctx):
                      f"RemoveUnusedVariables: the cleaned function reads {sorted(set(u1) - set(u0))} which nothing binds", {"before": code, "after": after})
 
 
+    # use-walrus-if asks the same question ("is the name read anywhere else?") before it inlines the value: the real codemod's choice
+    # (value inlined / walrus kept) against the model's count of own reads + references from enclosed scopes
+    import preccorr
+    codes = [scopecorr.walrus_program(rng) for _ in range(ctx.pick(80, 600))]
+    outs = preccorr.run_codemod("pixee:python/use-walrus-if", codes)
+    bodies = [scopecorr.walrus_body(c) for c in codes]
+    for code, out, b, a in zip(codes, outs, bodies, common.lean_ask([{"op": "scope_clean", "body": b} for b in bodies])):
+        m_own, m_nl = dict(map(tuple, a["own_reads"])), dict(map(tuple, a["nested_libcst"]))
+        count = m_own.get("w", 0) + m_nl.get("w", 0)
+        want = "inlined" if count == 1 else "walrus"
+        got = "failed" if out is None else ("walrus" if ":=" in out else ("inlined" if "if 1:" in out else "unchanged"))
+        ctx.corr_case("walrus_single_access", {"program": code}, got, want, True, "walrus:" + want)
+        ctx.search_case("walrus-inline", {"program": code}, True)
+        if out is not None:
+            u0, u1 = scopes.unresolved(code), scopes.unresolved(out)
+            if u0 is not None and u1 is not None and not set(u1) <= set(u0):
+                ctx.fail({"kind": "new-unresolved-name", "codemod": "pixee:python/use-walrus-if"},
+                         f"use-walrus-if: the rewritten function reads {sorted(set(u1) - set(u0))} which nothing binds", {"before": code, "after": out})
+
+
 def search(ctx):
     res = progspace.run_pass(ctx.tier, ctx.seed)
     for cid, r in sorted(res.items()):
